@@ -80,7 +80,7 @@ FreshPkg(s1) ==   \* what Package::create leaves
 Bind(s1) ==
   /\ schemas' = s1.schemas /\ tstream' = s1.tstream /\ pool' = s1.pool /\ cp' = s1.cp
   /\ summary' = s1.summary /\ dirty' = s1.dirty /\ dpool' = s1.dpool /\ dsum' = s1.dsum
-  /\ ustreams' = s1.ustreams /\ sess' = s1.sess /\ ptype' = s1.ptype /\ ro' = FALSE
+  /\ ustreams' = s1.ustreams /\ sess' = s1.sess /\ ptype' = s1.ptype /\ ro' = FALSE /\ msync' = TRUE
 
 \* The invariants of Msi.tla, evaluated on an observed state; the names that fail.
 CONSTANT InvSkip       \* invariants that do not apply to the run (files of other writers: exact accounting, key order)
@@ -120,7 +120,7 @@ TraceInit ==
   /\ LET e == Rec[1] s1 == StateOf(e.st, [schemas |-> << >>]) IN
        /\ schemas = s1.schemas /\ tstream = s1.tstream /\ pool = s1.pool /\ cp = s1.cp
        /\ summary = s1.summary /\ dirty = s1.dirty /\ dpool = s1.dpool /\ dsum = s1.dsum
-       /\ ustreams = s1.ustreams /\ sess = s1.sess /\ ptype = s1.ptype /\ ro = FALSE
+       /\ ustreams = s1.ustreams /\ sess = s1.sess /\ ptype = s1.ptype /\ ro = FALSE /\ msync = TRUE
        /\ hist = [path |-> <<>>, last |-> [op |-> e.op, args |-> e.args, res |-> e.res]]
        /\ Judge(e, s1, s1, TRUE)
 
